@@ -47,15 +47,20 @@ Lagrange(tr, j) == LagFrom(tr, j, 1)
 (*   basis through tau_root = <<0>> \o tau                                 *)
 (*   C[r][j] = l_r'(tau_j)  (r = 1..d+1, j = 1..d)                         *)
 (*   D[r]    = l_r(1)                                                      *)
-(*   B[j]    = integral_0^1 l_{j+1}                                        *)
+(*   B[j]    = integral_0^1 of the j-th Lagrange polynomial through tau     *)
+(*             alone: the interpolatory quadrature on the collocation      *)
+(*             times, which integrates constants exactly for every d.      *)
+(*             (It coincides with integral_0^1 l_{j+1} whenever the weight *)
+(*             of the extra node 0 vanishes -- true for Legendre nodes and *)
+(*             for Radau nodes with d >= 2, false for Radau d = 1.)        *)
 (***************************************************************************)
 TauRoot(tau) == <<Zero>> \o tau
 CollC(tau) == LET tr == TauRoot(tau) d == Len(tau)
               IN Tup([r \in 1..d + 1 |-> Tup([j \in 1..d |-> PEval(PDer(Lagrange(tr, r)), tau[j])])])
 CollD(tau) == LET tr == TauRoot(tau) d == Len(tau)
               IN Tup([r \in 1..d + 1 |-> PEval(Lagrange(tr, r), One)])
-CollB(tau) == LET tr == TauRoot(tau) d == Len(tau)
-              IN Tup([j \in 1..d |-> PInt01(Lagrange(tr, j + 1))])
+CollB(tau) == Tup([j \in 1..Len(tau) |-> PInt01(Lagrange(tau, j))])
+CollBRoot(tau) == LET tr == TauRoot(tau) IN Tup([j \in 1..Len(tau) |-> PInt01(Lagrange(tr, j + 1))])
 \* basis through tau only (algebraic variables): value at s of the interpolant of values z[j] at tau[j]
 ZInterp(tau, s) == Tup([j \in 1..Len(tau) |-> PEval(Lagrange(tau, j), s)])
 
